@@ -694,6 +694,18 @@ func genWithProfile(prop string, seed uint64, idx int, r *Rng, p Profile) *Scena
 		}
 	}
 	tightenCenturySplit(sc, NewRng(mix(mix(seed, uint64(idx)), 1900)))
+	if prop == "C05" {
+		// calendar edges as annual output date: end of February, 1 March, the turn of the year, ends of 30-day months
+		if r2 := NewRng(mix(mix(seed, uint64(idx)), 2802)); r2.Bool(0.2) {
+			dm := [][2]int{{28, 2}, {1, 3}, {1, 1}, {31, 12}, {30, 4}, {30, 6}, {31, 1}, {27, 2}}[r2.Intn(8)]
+			ad := Date{sc.End.Y, dm[1], dm[0]}
+			// keep the relation of the annual date to the end date that the generator chose (before / not before the end)
+			old := Date{sc.End.Y, sc.AnnualMonth, sc.AnnualDay}
+			if (old.Zeit() >= sc.End.Zeit()) == (ad.Zeit() >= sc.End.Zeit()) {
+				sc.AnnualDay, sc.AnnualMonth = dm[0], dm[1]
+			}
+		}
+	}
 	return sc
 }
 
